@@ -4,6 +4,7 @@ CONSTANTS
   Whats = {"ok", "block", "garbage"}
   MaxExtra = 1
   MaxOver = 0
+  MinN = 0
   Ops = {"list"}
 VIEW ViewNoHist
 INVARIANTS TypeOK IntersectionOnce
